@@ -13,6 +13,7 @@
 //!   POST|key|bits             its cabi_post_* -> ret||<report>
 //!   DRIVE|key|term            call import `key` through the generated safe API with the given
 //!                             argument tuple -> ret|<result term>|<report>
+//!   DRIVE|key|term|keep      same, but the result is stashed (-> ret|<term> #<stash index>|…); UNSTASH|idx drops it
 //!   READ|addr,len;…           -> ok|hex;hex…|live flags (1 = inside one live ledger block)
 //!   VERIFY                    redzone / poison scan of every G/H block of the process -> ok|errs
 //!   RETURN|bits               (inside an IMPORT event only)
@@ -31,7 +32,8 @@ pub struct Export {
 }
 pub struct Driver {
     pub key: &'static str,
-    pub drive: fn(&Term) -> String,
+    /// `keep`: stash the result instead of dropping it (dropped later by `UNSTASH`)
+    pub drive: fn(&Term, bool) -> String,
 }
 pub struct Item {
     pub name: &'static str,
@@ -44,6 +46,7 @@ struct Srv {
     scripts: HashMap<String, VecDeque<Term>>,
     obs: Vec<String>,
     notes: Vec<String>,
+    stash: Vec<Option<Box<dyn std::any::Any>>>,
     start: Option<Mark>,
 }
 static mut SRV: Option<Srv> = None;
@@ -71,6 +74,14 @@ pub fn stub_ret(key: &str) -> Term {
             .get_mut(key)
             .and_then(|q| q.pop_front())
             .unwrap_or_else(|| panic!("bn-rt: no scripted return value for {key}"))
+    })
+}
+
+/// keep a value alive across requests (results of imports the scenario wants the guest to hold)
+pub fn stash(v: Box<dyn std::any::Any>) -> usize {
+    harness(|| {
+        srv().stash.push(Some(v));
+        srv().stash.len() - 1
     })
 }
 
@@ -279,12 +290,24 @@ fn serve_loop(nested: bool) -> u64 {
                 let (o0, n0) = (srv().obs.len(), srv().notes.len());
                 let m = alloc::mark();
                 let old = alloc::set_tag(TAG_G);
-                let r = std::panic::catch_unwind(std::panic::AssertUnwindSafe(|| (d.drive)(&t)));
+                let keep = f.get(3).copied() == Some("keep");
+                let r = std::panic::catch_unwind(std::panic::AssertUnwindSafe(|| (d.drive)(&t, keep)));
                 alloc::set_tag(old);
                 match r {
                     Ok(s) => out(&format!("ret|{s}|{}", report(m, o0, n0))),
                     Err(e) => out(&format!("panic|{}", panic_msg(e))),
                 }
+            }
+            "UNSTASH" => {
+                let idx: usize = f[1].parse().unwrap();
+                let v = srv().stash.get_mut(idx).and_then(|x| x.take());
+                let (o0, n0) = (srv().obs.len(), srv().notes.len());
+                let m = alloc::mark();
+                let old = alloc::set_tag(TAG_G);
+                let had = v.is_some();
+                drop(v);
+                alloc::set_tag(old);
+                out(&format!("ret|{}|{}", had as u8, report(m, o0, n0)));
             }
             other => out(&format!("error|unknown request {other}")),
         }
@@ -295,7 +318,7 @@ pub fn serve(items: &'static [&'static Item]) -> ! {
     unsafe {
         #[allow(static_mut_refs)]
         {
-            SRV = Some(Srv { items, scripts: HashMap::new(), obs: Vec::new(), notes: Vec::new(), start: None });
+            SRV = Some(Srv { items, scripts: HashMap::new(), obs: Vec::new(), notes: Vec::new(), stash: Vec::new(), start: None });
         }
     }
     srv().start = Some(alloc::mark());
